@@ -19,13 +19,24 @@ def inner_of(rust_ty):
     return m.group(1) if m else None
 
 
+def lname(tok):
+    return tok.replace("@", "_at_")
+
+
 def leaf_units():
+    """per type token: Lf_ (the type itself, with its sample values), Li_ (what is inside an Option); for the
+    parameter tokens of generic programs the VALUES are those of the instantiation (Lf_ = Option<i32>) and the
+    TYPE facts are measured with the placeholder ParamT standing for T (Ls_ = Option<ParamT>)"""
     us = bindlib.helper_units()
     for tok, (ty, vals, dflt, objlike, isopt) in corpus.TYS.items():
-        us.append(corpus.Unit("Lf_" + tok, "pub type Lf_%s = %s;" % (tok, ty), vals, serde=True, deser=False, meta={"tok": tok}))
-        inn = inner_of(ty)
+        n = lname(tok)
+        sym, conc = corpus.PARAM_INST.get(tok, (ty, ty))
+        us.append(corpus.Unit("Lf_" + n, "pub type Lf_%s = %s;" % (n, conc), vals, serde=True, deser=False, meta={"tok": tok}))
+        if tok in corpus.PARAM_INST:
+            us.append(corpus.Unit("Ls_" + n, "pub type Ls_%s = %s;" % (n, sym), [], serde=False, meta={"tok": tok}))
+        inn = inner_of(sym)
         if inn:
-            us.append(corpus.Unit("Li_" + tok, "pub type Li_%s = %s;" % (tok, inn), [], serde=False, meta={"tok": tok}))
+            us.append(corpus.Unit("Li_" + n, "pub type Li_%s = %s;" % (n, inn), [], serde=False, meta={"tok": tok}))
     return us
 
 
@@ -58,22 +69,24 @@ def build_config(path):
     env = bindlib.base_env(obs)
     ty = {}
     for tok, (rty, vals, dflt, objlike, isopt) in corpus.TYS.items():
-        info = obs["Lf_" + tok]["info"]
+        n_ = lname(tok)
+        info = obs[("Ls_" if tok in corpus.PARAM_INST else "Lf_") + n_]["info"]
+        rty = corpus.PARAM_INST.get(tok, (rty, rty))[0]
         name = ast(info["name"]["ok"])
         inl = ast(info["inline"]["ok"]) if "ok" in info["inline"] else name
         flat = ast(info["inline_flattened"]["ok"]) if "ok" in info["inline_flattened"] else {"k": "none"}
         oname, oinl = name, inl
         if inner_of(rty):
-            ii = obs["Li_" + tok]["info"]
+            ii = obs["Li_" + n_]["info"]
             oname = ast(ii["name"]["ok"])
             oinl = ast(ii["inline"]["ok"]) if "ok" in ii["inline"] else oname
-        samples = obs["Lf_" + tok]["samples"]
+        samples = obs["Lf_" + n_]["samples"]
         ty[tok] = {"name": name, "inl": inl, "flat": flat, "oname": oname, "oinl": oinl, "isopt": isopt,
                    "vals": [tsparse.json_value(json.loads(s["ok"])) if "ok" in s else {"k": "error"} for s in samples],
                    "none": [v.strip() == "None" for v in vals],
                    # the sample is a unit variant of an (externally tagged) enum: serde writes it as a string, but
                    # as `"Variant": null` when it is flattened into a tagged map
-                   "unitvar": [tok in ("unite", "datae") and "::" in v and "(" not in v and "{" not in v for v in vals]}
+                   "unitvar": [(tok in ("unite", "datae") or tok.endswith("T@unite") and tok.split("@")[0] in ("T", "box_T")) and "::" in v and "(" not in v and "{" not in v for v in vals]}
     vlib.build_harness("rt", extra_env={"CARGO_TARGET_DIR": os.path.join(vlib.BUILD, "target-rt")})
     rt = os.path.join(vlib.BUILD, "target-rt", "release", "rt")
     cfg = {"ty": ty, "env": env,
